@@ -573,12 +573,42 @@ fn finish<B: attohttpc::body::Body>(rb: attohttpc::RequestBuilder<B>, case: &Sen
 pub fn run_send(case: &SendCase) -> SendObs {
     let mut obs = SendObs { hops: vec![], fin: FinalObs::Panic, url: None, prepared_headers: vec![], prepare_error: None, plain: case.plain_tunnel };
     let method = attohttpc::Method::from_bytes(case.method.as_bytes()).unwrap_or(attohttpc::Method::GET);
-    let rb = match attohttpc::RequestBuilder::try_new(method, &case.url) {
+    let rb = match attohttpc::RequestBuilder::try_new(method.clone(), &case.url) {
         Ok(rb) => rb,
         Err(e) => {
             obs.fin = FinalObs::Err(format!("builder:{:?}", e.kind()));
             return obs;
         }
+    };
+    // the same request through the other ways of starting one: the free functions of the crate, the verbs
+    // of a `Session`, `RequestBuilder::new` — chosen by a hash of the case so that every way meets every method
+    let route = (case.url.len() + case.params.len() * 3 + case.pre.len() + case.method.len()) % 4;
+    let u = case.url.as_str();
+    let rb = match (route, case.method.as_str()) {
+        (1, "GET") => attohttpc::get(u),
+        (1, "POST") => attohttpc::post(u),
+        (1, "PUT") => attohttpc::put(u),
+        (1, "DELETE") => attohttpc::delete(u),
+        (1, "HEAD") => attohttpc::head(u),
+        (1, "OPTIONS") => attohttpc::options(u),
+        (1, "PATCH") => attohttpc::patch(u),
+        (1, "TRACE") => attohttpc::trace(u),
+        (2, m) => {
+            let sess = attohttpc::Session::new();
+            match m {
+                "GET" => sess.get(u),
+                "POST" => sess.post(u),
+                "PUT" => sess.put(u),
+                "DELETE" => sess.delete(u),
+                "HEAD" => sess.head(u),
+                "OPTIONS" => sess.options(u),
+                "PATCH" => sess.patch(u),
+                "TRACE" => sess.trace(u),
+                _ => rb,
+            }
+        }
+        (3, _) => attohttpc::RequestBuilder::new(method, u),
+        _ => rb,
     };
     let mut pb = attohttpc::ProxySettings::builder();
     if let Some(p) = &case.proxy.http {
